@@ -167,13 +167,14 @@ PROPS = {
     'C19': {
         'level': 'proof',
         'units': [
+            {'engine': 'verus', 'name': 'ports', 'tier': 'quick', 'role': 'the port-assignment loop of NetworkTopology::build: port = base_port(host) + rank of the coordinate among its host\'s coordinates in sorted order; two demultiplexers of a host never share a port'},
             {'engine': 'verus', 'name': 'wiring', 'tier': 'quick', 'role': 'the replica-to-replica wiring loop of Scheduler::build_execution_graph: all-to-all on ordinary edges; on forward edges exactly one consumer per producer replica, the same-index one when it exists'},
             {'engine': 'verus', 'name': 'replication', 'tier': 'quick', 'role': 'Replication::{clamp,intersect}, DemuxCoord::{new,includes_channel}, From impls'},
             {'engine': 'verus', 'name': 'placement', 'tier': 'quick', 'role': 'Scheduler::remote_block_info: replicas per host (all cores / min(n, cores) filled host by host / one per host / one) and contiguous global ids in host order; the function never reads the local host id'},
         ],
         'explanation': 'Verus proofs of the placement of a block on the hosts (Scheduler::remote_block_info, any number of hosts and cores: replicas per host per replication kind, global ids contiguous in host order, hence distinct and in [0,#replicas), computed without reading the local host id), of the placement arithmetic (Replication::clamp/intersect) of the demultiplexer coordinate of a link, and of the replica-to-replica wiring loop of build_execution_graph (ordinary edge: all-to-all; forward edge: exactly one consumer per producer replica, the same-index one when it exists - KNOWN FINDING F4 when no same-index consumer exists). '
-                       'NOT under contract: Scheduler::local_block_info, the enumeration loops around the wiring loop, and NetworkTopology::build (port assignment): iterator adapters over hash maps.',
-        'assumptions': ['port assignment (NetworkTopology::build) and local_block_info are NOT under contract', 'std HashMap modelled by its map view', 'NetworkTopology::connect modelled as appending to a ghost log of links'],
+                       'and of the port-assignment loop of NetworkTopology::build (address of a demultiplexer = host address, base_port + its rank among the host\'s coordinates in the SORTED coordinate list: a function of the set of coordinates only, collision-free per host). NOT under contract: Scheduler::local_block_info, the enumeration loops around the wiring loop, and the collection+sort of the coordinates that precedes the port loop (IndexSet::sort).',
+        'assumptions': ['local_block_info is NOT under contract; the coordinate list given to the port loop is sorted and duplicate-free (IndexSet + sort: assumed)', 'base_port + number of demultiplexers of a host <= 65535 (otherwise `base_port + offset` overflows u16: panic in debug builds, wrap-around and colliding ports in release builds)', 'std HashMap modelled by its map view', 'NetworkTopology::connect modelled as appending to a ghost log of links'],
     },
     'C10': {
         'level': 'proof',
